@@ -581,3 +581,82 @@ package raft
 //@ callers Raft.tryApplyReadOnlyOperations = Raft.sendAppendEntries Raft.sendAppendEntriesToPeers
 //@ callers Raft.becomeLeader = Raft.sendRequestVote Raft.sendRequestVoteToPeers
 //@ callers Raft.becomeCandidate = Raft.election Raft.sendRequestVoteToPeers
+
+// ===========================================================================================
+// Snapshots (C10, C11): ghost model of snapshot files and the InstallSnapshot handler
+// ===========================================================================================
+
+// Per snapshot-file handle f: label (sfIndex, sfTerm, sfConf), position sfPos, whether it is a
+// writer created by NewSnapshotFile (sfWriter) and whether it has been published (sfPublished).
+// snapIndex/snapTerm: label of the most recently published snapshot (0 if none).
+//@ ghost sfIndex map[int]int
+//@ ghost sfTerm map[int]int
+//@ ghost sfConf map[int]int
+//@ ghost sfPos map[int]int
+//@ ghost sfWriter map[int]bool
+//@ ghost sfPublished map[int]bool
+//@ ghost snapIndex int
+//@ ghost snapTerm int
+// fsmIndex: index of the last replicated operation the state machine has absorbed.
+//@ ghost fsmIndex int
+
+//@ iface SnapshotStorage.NewSnapshotFile(lastIncludedIndex, lastIncludedTerm, configuration) (file, err)
+//@   modifies sfIndex, sfTerm, sfConf, sfPos, sfWriter, sfPublished
+//@   ensures ioOK ==> err == nil
+//@   ensures err == nil ==> file != nil && fresh(file) && sfIndex[file] == lastIncludedIndex && sfTerm[file] == lastIncludedTerm && sfConf[file] == configuration && sfPos[file] == 0 && sfWriter[file] && !sfPublished[file]
+//@   ensures forall g int :: g != file ==> sfIndex[g] == old(sfIndex[g]) && sfTerm[g] == old(sfTerm[g]) && sfConf[g] == old(sfConf[g]) && sfPos[g] == old(sfPos[g]) && sfWriter[g] == old(sfWriter[g]) && sfPublished[g] == old(sfPublished[g])
+//@ iface SnapshotStorage.SnapshotFile() (file, err)
+//@   modifies sfIndex, sfTerm, sfConf, sfPos, sfWriter, sfPublished
+//@   ensures ioOK ==> err == nil
+//@   ensures err == nil && file != nil ==> fresh(file) && sfIndex[file] == snapIndex && sfTerm[file] == snapTerm && sfPos[file] == 0 && !sfWriter[file]
+//@   ensures err == nil && snapIndex > 0 ==> file != nil
+//@   ensures forall g int :: g != file ==> sfIndex[g] == old(sfIndex[g]) && sfTerm[g] == old(sfTerm[g]) && sfConf[g] == old(sfConf[g]) && sfPos[g] == old(sfPos[g]) && sfWriter[g] == old(sfWriter[g]) && sfPublished[g] == old(sfPublished[g])
+//@ iface SnapshotFile.Metadata() (md)
+//@   ensures md.LastIncludedIndex == sfIndex[self] && md.LastIncludedTerm == sfTerm[self] && md.Configuration == sfConf[self]
+//@ iface SnapshotFile.Seek(offset, whence) (pos, err)
+//@   modifies sfPos
+//@   ensures ioOK ==> err == nil
+//@   ensures err == nil && whence == 1 && offset == 0 ==> pos == old(sfPos[self]) && sfPos[self] == old(sfPos[self])
+//@   ensures err == nil && whence == 0 ==> pos == offset && sfPos[self] == offset
+//@   ensures forall g int :: g != self ==> sfPos[g] == old(sfPos[g])
+//@   ensures err != nil ==> sfPos[self] == old(sfPos[self])
+//@ iface SnapshotFile.Close() (err)
+//@   modifies sfPublished, snapIndex, snapTerm
+//@   ensures ioOK ==> err == nil
+//@   ensures err == nil && old(sfWriter[self]) && !old(sfPublished[self]) ==> sfPublished[self] && snapIndex == sfIndex[self] && snapTerm == sfTerm[self]
+//@   ensures !(err == nil && old(sfWriter[self]) && !old(sfPublished[self])) ==> snapIndex == old(snapIndex) && snapTerm == old(snapTerm) && sfPublished[self] == old(sfPublished[self])
+//@   ensures forall g int :: g != self ==> sfPublished[g] == old(sfPublished[g])
+//@ iface SnapshotFile.Discard() (err)
+//@   ensures ioOK ==> err == nil
+
+// io.Copy(dst, src): bytes are appended at the destination's position.
+//@ extern io.Copy(dst, src) (n, err)
+//@   modifies sfPos
+//@   ensures ioOK ==> err == nil
+//@   ensures n >= 0
+//@   ensures err == nil ==> sfPos[dst] == old(sfPos[dst]) + n
+//@   ensures forall g int :: g != dst && g != src ==> sfPos[g] == old(sfPos[g])
+//@ extern bytes.NewReader(b) (rd)
+//@   ensures rd != nil && fresh(rd)
+
+//@ guar [G5] r.lastIncludedIndex >= old(r.lastIncludedIndex)
+//@ guar [G6] Lfirst >= old(Lfirst)
+//@ guar [Gsnap] snapIndex >= old(snapIndex) || snapIndex == r.lastIncludedIndex
+
+//@ func Raft.InstallSnapshot
+//@   flags splitexits
+//@   requires request != nil && response != nil
+//@   let X = request.LastIncludedIndex
+//@   let T = request.LastIncludedTerm
+//@   assume [A-ES] request.Term == r.currentTerm ==> r.state != Leader
+//@   ensures [IS.shutdown] old(r.state) == Shutdown ==> err != nil && Llast == old(Llast) && Lfirst == old(Lfirst) && r.commitIndex == old(r.commitIndex) && r.lastApplied == old(r.lastApplied) && r.currentTerm == old(r.currentTerm) && r.votedFor == old(r.votedFor) && snapIndex == old(snapIndex)
+//@   ensures [IS.stale-term] err == nil && request.Term < entry(r.currentTerm) && old(r.state) != Shutdown ==> response.Term >= request.Term
+//@   at call r.snapshotStorage.NewSnapshotFile assert [IS.something-new] X > r.lastIncludedIndex && X > r.lastApplied && request.Term >= r.currentTerm
+//@   at call io.Copy assert [IS.chunk-identity] sfIndex[r.snapshot] == X && sfTerm[r.snapshot] == T
+//@   at call io.Copy assert [IS.offset] request.Offset == sfPos[r.snapshot] && sfWriter[r.snapshot] && !sfPublished[r.snapshot] && X > r.lastIncludedIndex && X > r.lastApplied
+//@   at call r.snapshot.Close assert [IS.publish-label] sfIndex[r.snapshot] == X && sfTerm[r.snapshot] == T && request.Done
+//@   at call r.log.Compact assert [IS.compact-after-applied] r.lastApplied >= X && inLog(X) && index == X
+//@   at call r.log.DiscardEntries assert [IS.discard-only-on-mismatch] index == X && term == T
+//@   at before-assign r.lastApplied assert [IS.applied-monotone] newval >= r.lastApplied
+//@   at before-assign r.commitIndex assert [IS.commit-monotone] newval >= r.commitIndex
+//@   at before-assign r.lastIncludedIndex assert [IS.included-monotone] newval > r.lastIncludedIndex && newval == X
